@@ -397,12 +397,16 @@ def _recv_start(out, i):
 
 
 def option_idioms(toks, log):
-    """R9: `RECV.is_some_and(|x| BODY)` -> `(match RECV { Some(x) => BODY, None => false })`; likewise is_none_or / map_or(D, |x| BODY)"""
+    """R9: `RECV.is_some_and(|x| BODY)` -> `(match RECV { Some(x) => BODY, None => false })`; likewise is_none_or / map_or(D, |x| BODY) / map(|x| BODY)
+    (a `map` that was not an Option's gives text that does not compile: fails closed)"""
     out = list(toks)
     for _ in range(40):
         hit = None
         for j in range(len(out) - 3):
             if out[j] == "." and out[j + 1] in ("is_some_and", "is_none_or", "map_or") and out[j + 2] == "(":
+                hit = j; break
+            # Option::map with a closure, directly on a call result (`x.find(o).map(|at| ..)`); an iterator's map is handled before (normalize_chains)
+            if out[j] == "." and out[j + 1] == "map" and out[j + 2] == "(" and out[j + 3] == "|" and j > 0 and out[j - 1] == ")":
                 hit = j; break
         if hit is None:
             return out
@@ -422,6 +426,8 @@ def option_idioms(toks, log):
             if k is None:
                 out[j + 1] = "verif_untranslated_" + out[j + 1]; continue
             dflt, args = args[:k], args[k + 1:]
+        elif out[j + 1] == "map":
+            dflt = ["None"]
         else:
             dflt = ["false"] if out[j + 1] == "is_some_and" else ["true"]
         cp = _closure_parts(args)
@@ -429,7 +435,8 @@ def option_idioms(toks, log):
             out[j + 1] = "verif_untranslated_" + out[j + 1]; continue        # fails closed (unknown method)
         x, body = cp
         s = _recv_start(out, j)
-        new = ["(", "match", *out[s:j], "{", "Some", "(", x, ")", "=>", "{", *body, "}", ",", "None", "=>", *dflt, "}", ")"]
+        some = ["Some", "(", "{", *body, "}", ")"] if out[j + 1] == "map" else ["{", *body, "}"]
+        new = ["(", "match", *out[s:j], "{", "Some", "(", x, ")", "=>", *some, ",", "None", "=>", *dflt, "}", ")"]
         log.append(("R9", text(out[s:c + 1])[:170], text(new)[:170], f"Option::{out[j + 1]} with a closure -> match"))
         out = out[:s] + new + out[c + 1:]
     return out
